@@ -83,6 +83,10 @@ func eachValidObject(rng *Rng, n int, visit func(class string, c psa.IClaims, d 
 					d.Sw = append(d.Sw, validComp(rng))
 				}
 			}
+			if d.NoSw != nil && rng.Chance(30) {
+				// the flag is an unsigned integer of the platform's word size; every value says "no measurements"
+				d.NoSw = uip(Pick(rng, []uint{0, 7, 1 << 32, 1 << 53, 1<<53 + 1, 1<<63 - 1, 1 << 63, 1<<64 - 2, 1<<64 - 1}))
+			}
 			normalise(&d)
 			switch i % 3 {
 			case 0:
@@ -565,4 +569,5 @@ func runC10(r *Run, rng *Rng, thorough bool) {
 			r.Fail("wire-format", "payload of ValidateAndSign: "+why)
 		}
 	}
+	extWire(r, rng, map[bool]int{false: 400, true: 10000}[thorough])
 }
